@@ -883,3 +883,83 @@ Lemma witness_cell_grammar :
   py_float (bs "1_.5"%bs) = None /\ py_float (bs "1e"%bs) = None /\ py_float (bs "."%bs) = None /\
   line_parses [bs "A"%bs] (bs "r 1e5 x"%bs) = false /\ line_parses [bs "A"%bs] (bs "r 1.e5 x"%bs) = true.
 Proof. vm_compute. repeat split; reflexivity. Qed.
+
+(* ================= pathlib.Path arguments ================= *)
+Definition no_slash (s : str) : bool := negb (existsb (fun c => byte_eqb c "/"%byte) s).
+Lemma split_slash_none s : forall cur, no_slash s = true -> split_slash s cur = [rev cur ++ s].
+Proof.
+  unfold no_slash. induction s as [|c s IH]; intros cur H.
+  - cbn. rewrite app_nil_r. reflexivity.
+  - cbn [existsb] in H. rewrite negb_orb in H. apply andb_prop in H. destruct H as [H1 H2].
+    apply negb_true_iff in H1. cbn [split_slash]. rewrite H1. rewrite (IH (c :: cur) H2).
+    cbn [rev]. rewrite <- app_assoc. reflexivity.
+Qed.
+(* a bare name (no "/", not empty, not ".") given as a Path is that name: Path objects resolve like strings *)
+Lemma path_norm_bare s : no_slash s = true -> path_part s = true -> path_norm s = s.
+Proof.
+  intros H1 H2. unfold path_norm. rewrite (split_slash_none s [] H1). cbn [rev List.app filter]. rewrite H2.
+  cbn [join].
+  assert (R : path_root s = []).
+  { destruct s as [|c r]; [reflexivity|]. unfold no_slash in H1. cbn [existsb] in H1. rewrite negb_orb in H1.
+    apply andb_prop in H1. destruct H1 as [H1 _]. apply negb_true_iff in H1. cbn [path_root]. rewrite H1. reflexivity. }
+  rewrite R. cbn [List.app]. destruct s; [discriminate|reflexivity].
+Qed.
+Lemma split_slash_app a b : no_slash a = true -> forall cur, split_slash (a ++ "/"%byte :: b) cur = (rev cur ++ a) :: split_slash b [].
+Proof.
+  unfold no_slash. induction a as [|c a IH]; intros H cur.
+  - cbn. rewrite app_nil_r. reflexivity.
+  - cbn [existsb] in H. rewrite negb_orb in H. apply andb_prop in H. destruct H as [H1 H2].
+    apply negb_true_iff in H1. cbn [List.app split_slash]. rewrite H1, (IH H2 (c :: cur)).
+    cbn [rev]. rewrite <- app_assoc. reflexivity.
+Qed.
+(* "./name", "name/" and "name//" are the name too *)
+Lemma path_norm_dot_slash s : no_slash s = true -> path_part s = true ->
+  path_norm ("."%byte :: "/"%byte :: s) = s /\ path_norm (s ++ [ "/"%byte ]) = s /\ path_norm (s ++ [ "/"%byte; "/"%byte ]) = s.
+Proof.
+  intros H1 H2.
+  assert (Hne : exists c r, s = c :: r /\ byte_eqb c "/"%byte = false).
+  { destruct s as [|c r]; [discriminate|]. exists c, r. split; [reflexivity|]. unfold no_slash in H1. cbn [existsb] in H1.
+    rewrite negb_orb in H1. apply andb_prop in H1. apply negb_true_iff. exact (proj1 H1). }
+  destruct Hne as (c & r & Es & Hc).
+  split; [|split].
+  - unfold path_norm. change ("."%byte :: "/"%byte :: s) with ([ "."%byte ] ++ "/"%byte :: s).
+    rewrite (split_slash_app [ "."%byte ] s eq_refl []). rewrite (split_slash_none s [] H1).
+    cbn [rev List.app filter]. change (path_part [ "."%byte ]) with false. cbv iota. rewrite H2. cbn [join path_root].
+    change (byte_eqb "." "/") with false. cbv iota. cbn [List.app]. rewrite Es. reflexivity.
+  - unfold path_norm. rewrite (split_slash_app s [] H1 []). cbn [split_slash rev List.app filter]. rewrite H2.
+    change (path_part []) with false. cbv iota. cbn [join].
+    rewrite Es. cbn [List.app path_root]. rewrite Hc. reflexivity.
+  - unfold path_norm. rewrite (split_slash_app s [ "/"%byte ] H1 []). cbn [split_slash rev List.app filter].
+    change (byte_eqb "/" "/") with true. cbv iota. cbn [split_slash rev filter]. rewrite H2.
+    change (path_part []) with false. cbv iota. cbn [join].
+    rewrite Es. cbn [List.app path_root]. rewrite Hc. reflexivity.
+Qed.
+Lemma path_witness : path_norm [] = bs "."%bs /\ path_norm (bs "a//b/./c/"%bs) = bs "a/b/c"%bs /\
+  path_norm (bs "//x"%bs) = bs "//x"%bs /\ path_norm (bs "///x/."%bs) = bs "/x"%bs /\ path_norm (bs "./."%bs) = bs "."%bs /\
+  path_norm (bs "x/../blosum62"%bs) = bs "x/../blosum62"%bs.
+Proof. vm_compute. repeat split; reflexivity. Qed.
+
+(* ================= "exactly the number at that position", cell by cell ================= *)
+Theorem matrix_cell e final mf m : mfile_ok mf = true ->
+  NoDup (mf_letters mf) -> NoDup (map fst (body_rows (mf_body mf))) ->
+  parse (render_with e final (to_afile mf)) = Some m ->
+  map fst m = map fst (body_rows (mf_body mf)) /\
+  forall r vals, In (r, vals) (body_rows (mf_body mf)) ->
+  forall j c v, nth_error (mf_letters mf) j = Some c -> nth_error vals j = Some v ->
+  exists v', cell m r c = Some v' /\ num_val_eqb v' v = true /\ is_int_num v' = forallb is_int_num vals.
+Proof.
+  intros H Hl Hr P. rewrite (parse_render_matrix_nodup e final mf H Hl Hr) in P. inversion P as [Em]. clear P. subst m.
+  split; [rewrite map_map; reflexivity|].
+  intros r vals Hin j c v Hc Hv.
+  destruct (row_vals_nth vals j v Hv) as (v' & Hv' & Hq & Hk).
+  exists v'. split; [|split; assumption].
+  unfold cell, matrix, row in *.
+  match goal with |- match dict_get r ?M with _ => _ end = _ =>
+    assert (Hm : dict_get r M = Some (combine (mf_letters mf) (row_vals vals))) end.
+  { apply dict_get_nodup_In.
+    - rewrite map_map. cbn [fst]. exact Hr.
+    - apply in_map_iff. exists (r, vals). split; [reflexivity|exact Hin]. }
+  rewrite Hm. apply dict_get_nodup_In.
+  - apply NoDup_map_fst_combine. exact Hl.
+  - apply (nth_error_combine_In _ _ j); assumption.
+Qed.
